@@ -28,7 +28,7 @@ TFile == /\ IsEvent("file")
          /\ FileStart(l)
 
 TScan == /\ l <= NRec /\ Rec[l].ev \in {"chk_file", "chk_lib", "chk_pages", "chk_resources", "chk_interactive", "chk_tagged"} /\ phase \notin {"idle", "done"}
-         /\ FileStep(TRUE)
+         /\ (FileStepCore \/ QueueStmsD(Clear) \/ QueuePagesExtra(TRUE, ApPayloads))
          /\ UNCHANGED l
 
 TChkFile == /\ IsEvent("chk_file")
